@@ -16,6 +16,9 @@ mod service;
 
 pub(in crate::server) use server::CloudServer;
 
+#[cfg(gothenburgbitfactory_taskchampion_verif)]
+pub use server::verif;
+
 #[cfg(feature = "server-gcp")]
 pub(in crate::server) mod gcp;
 
